@@ -370,7 +370,7 @@ fn spawn_worker(exe: &Path, id: &str, tier: Tier, seed: u64, sh: &Shard, nshards
     if resume {
         c.arg("--resume");
     }
-    c.env_remove("RUST_BACKTRACE").stdin(Stdio::null());
+    c.env_remove("RUST_BACKTRACE").stdin(Stdio::null()).stdout(Stdio::null());
     c.spawn().expect("spawn worker")
 }
 
